@@ -9,9 +9,9 @@ from vlib.wsgi import FragStream, make_environ, call_app
 
 ID = 'C13'
 LEVEL = 'exploration'
-RULE = ('case = (content kind in {raw body, urlencoded form, JSON, multipart text fields, multipart file part}, max_body_size M in {None, 1, 20, 100, 1000} '
+RULE = ('case = (content kind in {raw body, urlencoded form, JSON, multipart text fields, multipart file part, multipart part with an empty file name}, max_body_size M in {None, 1, 20, 100, 1000} '
         'or generated, max_memfile_size B in {1, 8, 33, 64, 256, 4096} (>= 8 for chunked framing: the size-line scanner is bounded by the buffer), body size S '
-        'placed at 0, 1, M-1, M, M+1, M+B-1, M+B, M+B+1, 3M, B-1, B, B+1, 2B.. or generated, framing = Content-Length or chunked with chunk sizes 1, 3, B, >B, '
+        'placed at 0, 1, M-1, M, M+1, M+B-1, M+B, M+B+1, 3M, B-1, B, B+1, 2B.. or generated, framing = Content-Length or chunked (optionally with an additional Content-Length header, which the transfer coding overrides) with chunk sizes 1, 3, B, >B, '
         'one huge chunk, read fragmentation caps). Oracle from a recording wsgi.input: S > M => 413 and the payload bytes handed out by the stream <= M + B '
         '(chunk framing bytes mapped back to payload offsets); S <= M => raw body accepted and byte-identical; accepted raw body with S > B => Request.body '
         'is a real file (not BytesIO, fileno() works) with identical content; urlencoded / JSON text > B and multipart header+text bytes > B => refused with '
@@ -59,6 +59,13 @@ def build_body(kind, S, extra):
         mem = sum(e - s for k, s, e in truth['sections'] if k == 'headers') + sum(len(p['value']) for p in parts)
         want = {p['name']: p['value'].decode() for p in parts}
         return body, 'multipart/form-data; boundary=bnd', want, mem
+    if kind == 'mp_emptyfn':
+        # a part with a present but empty file name (what browsers send for an empty file input), here with data
+        content = data_of(S, 5)
+        parts = [{'name': 'f', 'filename': '', 'ctype': 'application/octet-stream', 'value': content}, {'name': 't', 'value': b'small'}]
+        body, truth = encode_multipart('bnd', parts, b'', b'\r\n')
+        mem = sum(e - s for k, s, e in truth['sections'] if k == 'headers') + 5
+        return body, 'multipart/form-data; boundary=bnd', content, mem
     if kind == 'mp_file':
         content = data_of(S, 3)
         parts = [{'name': 'f', 'filename': 'u.bin', 'ctype': 'application/octet-stream', 'value': content}]
@@ -100,6 +107,9 @@ def check_case(ctx, case):
             seen['value'] = rq.json
         elif kind == 'mp_text':
             seen['value'] = dict(rq.forms)
+        elif kind == 'mp_emptyfn':
+            seen['forms'] = dict(rq.forms)
+            seen['nfiles'] = len(rq.files)
         elif kind == 'mp_file':
             up = rq.files['f']
             seen['value'] = up.file.read()
@@ -117,7 +127,15 @@ def check_case(ctx, case):
             return
         headers['Transfer-Encoding'] = 'chunked'
         stream = FragStream(wire + b'#SENTINEL#', case['pattern'])
-        env = make_environ('POST', '/u', stream=stream, content_length=None, headers=headers)
+        # a chunked request may also carry a Content-Length (the transfer coding takes precedence): only for kinds whose accessors do not
+        # consult the declared length themselves
+        extra_cl = case.get('cl_with_chunked')
+        if extra_cl is not None and kind in ('raw', 'mp_file'):
+            extra_cl = {'zero': 0, 'total': total, 'limit': M if M is not None else total, 'small': min(total, 3)}[extra_cl]
+            ctx.count('chunked_request_with_content_length')
+        else:
+            extra_cl = None
+        env = make_environ('POST', '/u', stream=stream, content_length=extra_cl, headers=headers)
     else:
         stream = FragStream(body + b'#SENTINEL#', case['pattern'])
         env = make_environ('POST', '/u', stream=stream, content_length=total, headers=headers)
@@ -162,6 +180,17 @@ def check_case(ctx, case):
                 if seen.get('value') != want:
                     raise CheckFailure(f'{what}: form value differs: {str(seen.get("value"))[:80]!r} vs {str(want)[:80]!r}')
                 ctx.count('text_within_threshold_delivered')
+        elif kind == 'mp_emptyfn':
+            if mem > B:
+                ctx.exclude('file_part_header_block_larger_than_buffer')
+            else:
+                if r.code not in (200, 413):
+                    raise CheckFailure(f'{what}: part with an empty file name answered {r.status!r} {r.errors[-300:]}')
+                text = sum(len(v) for v in (seen.get('forms') or {}).values() if isinstance(v, str))
+                if text > B:
+                    raise CheckFailure(f'{what}: the handler obtained {text} characters of form text although max_memfile_size is {B} '
+                                       f'(a part with an empty file name was loaded into memory)')
+                ctx.count('empty_filename_part_beyond_threshold' if S > B else 'empty_filename_part_small')
         elif kind == 'mp_file':
             if mem > B:
                 ctx.exclude('file_part_header_block_larger_than_buffer')
@@ -194,7 +223,7 @@ def check_case(ctx, case):
 
 @st.composite
 def case_st(draw):
-    kind = draw(st.sampled_from(['raw', 'raw', 'urlencoded', 'json', 'mp_text', 'mp_text', 'mp_file']))
+    kind = draw(st.sampled_from(['raw', 'raw', 'urlencoded', 'json', 'mp_text', 'mp_text', 'mp_file', 'mp_emptyfn']))
     chunked = draw(st.booleans())
     B = draw(st.sampled_from([8, 33, 64, 256, 4096] if chunked else [1, 2, 8, 33, 64, 256, 4096]))
     M = draw(st.sampled_from([None, None, 1, 20, 100, 1000]) | st.integers(0, 600))
@@ -203,7 +232,7 @@ def case_st(draw):
         cands |= {M - 1, M, M + 1, M + B - 1, M + B, M + B + 1, 3 * M + 2, M + 2 * B}
     cands = sorted(c for c in cands if 0 <= c <= 20000)
     S = draw(st.sampled_from(cands) | st.integers(0, 700))
-    if kind == 'mp_file':
+    if kind in ('mp_file', 'mp_emptyfn'):
         # the header block of the part (~100 bytes) must fit the in-memory budget; the interesting side is file content >> B
         B = draw(st.sampled_from([128, 256, 4096]))
         S = draw(st.sampled_from([0, 1, B - 1, B, B + 1, 2 * B, 5 * B + 3]) | st.integers(0, 3 * B))
@@ -214,6 +243,7 @@ def case_st(draw):
     case = {'kind': kind, 'S': S, 'M': M, 'B': B, 'nparts': draw(st.integers(1, 2)),
             'chunks': None, 'pattern': draw(st.one_of(st.just([]), st.lists(st.integers(1, 9), min_size=1, max_size=5), st.lists(st.integers(1, 300), min_size=1, max_size=5)))}
     if chunked:
+        case['cl_with_chunked'] = draw(st.sampled_from([None, None, 'zero', 'total', 'limit', 'small']))
         case['chunks'] = draw(st.one_of(st.just([1]), st.just([3]), st.just([B]), st.just([B + 1, 2 * B + 3]), st.just([100000]), st.just([1, 100000]),
                                         st.lists(st.integers(1, 3 * B), min_size=1, max_size=6)))
         if case['chunks'] == [1] or case['chunks'] == [3]:
@@ -227,7 +257,7 @@ def run(ctx):
         ctx.count('corpus')
     if ctx.shard == 0:
         # grid around the limits (property's own enumeration): every kind x framing x edge size
-        for kind in ('raw', 'urlencoded', 'json', 'mp_text', 'mp_file'):
+        for kind in ('raw', 'urlencoded', 'json', 'mp_text', 'mp_file', 'mp_emptyfn'):
             for M in (None, 20, 150):
                 for B in (8, 64):
                     for chunks in (None, [3] * 400, [B], [4 * B + 1], [100000]):
@@ -235,6 +265,9 @@ def run(ctx):
                         for S in base:
                             for pattern in ([], [2, 5]):
                                 ctx.guarded(check_case, {'kind': kind, 'S': S, 'M': M, 'B': B, 'nparts': 1, 'chunks': chunks, 'pattern': pattern})
+                            if chunks is not None and kind == 'raw':
+                                for cl in ('zero', 'limit', 'small'):
+                                    ctx.guarded(check_case, {'kind': kind, 'S': S, 'M': M, 'B': B, 'nparts': 1, 'chunks': chunks, 'pattern': [], 'cl_with_chunked': cl})
         ctx.count('limit_grid')
     n = 2500 if ctx.tier == 'quick' else 25000
     ctx.hyp(case_st(), check_case, n)
